@@ -17,8 +17,8 @@ Executable, total model over `Rat` (core Lean, no Mathlib) of the tree metrics o
   parent / fraction_along definition"); the second part follows the code line by line (IMPLEMENTATION model).
 * `networkx` Dijkstra is replaced by its specification on a forest (every node has at most one incoming edge):
   walk the unique chain of incoming edges from the target up to the source, `none` when the source is not on it.
-* The `…Old` definitions are the code before the repair `fixes/C13-*.patch` (graph without isolated nodes, tips
-  measured from segment id 0); they are only used for the witness theorems that document the repaired defects.
+* The `…Old` definitions are the code before the repairs `fixes/C13-*.patch` (graph without isolated nodes, tips
+  measured from segment id 0, location-info walk indexing the predecessor of the root); they are only used for the witness theorems that document the repaired defects.
 -/
 namespace NmlVerif.Morph
 
@@ -99,6 +99,15 @@ inductive NoBranchAbove (m : Morph) : Nat → Prop
   | root {i : Nat} {s : Seg} : find m i = some s → s.parent = none → NoBranchAbove m i
   | up {i : Nat} {s : Seg} {p : Nat} {f : Rat} : find m i = some s → s.parent = some (p, f) →
       (childrenS m p).length = 1 → NoBranchAbove m p → NoBranchAbove m i
+
+/-- `cur` is the first segment of the unbranched stretch that contains `i`: walk up from `i` while the segment is an
+    only child; stop at a segment without parent or with a sibling -/
+inductive StretchTopS (m : Morph) : Nat → Nat → Prop
+  | root {i : Nat} {s : Seg} : find m i = some s → s.parent = none → StretchTopS m i i
+  | branch {i : Nat} {s : Seg} {p : Nat} {f : Rat} : find m i = some s → s.parent = some (p, f) →
+      (childrenS m p).length ≠ 1 → StretchTopS m i i
+  | up {i cur : Nat} {s : Seg} {p : Nat} {f : Rat} : find m i = some s → s.parent = some (p, f) →
+      (childrenS m p).length = 1 → StretchTopS m p cur → StretchTopS m i cur
 
 /-- running totals `t + a₁, t + a₁ + a₂, …`: the cumulative lengths of a list of segment lengths -/
 def prefixSumsS (t : Rat) : List Rat → List Rat
@@ -291,12 +300,23 @@ def extremitiesOldG (g : Graph) (fuel : Nat) : Option (List (Nat × Rat)) :=
 def preds (g : Graph) (v : Nat) : List Nat := (g.edges.filter (fun e => e.dst == v)).map (·.src)
 def succs (g : Graph) (v : Nat) : List Nat := (g.edges.filter (fun e => e.src == v)).map (·.dst)
 
-/-- the `while len(children) == 1` loop of `get_segment_location_info`; result = `current` at loop exit -/
-def walkBranch (g : Graph) : Nat → Nat → Option Nat
+/-- the walk of `get_segment_location_info` BEFORE the repair `fixes/C13-location-info-stops-at-root.patch`
+    (`parent = list(graph.predecessors(current))[0]` / `while len(children) == 1`); result = `current` at loop exit -/
+def walkBranchOld (g : Graph) : Nat → Nat → Option Nat
   | 0, _ => none
   | k + 1, cur =>
     match preds g cur with
     | [] => none                                      -- IndexError: `list(graph.predecessors(current))[0]`
+    | par :: _ => if (succs g par).length = 1 then walkBranchOld g k par else some cur
+
+/-- the walk of `get_segment_location_info` (`preds = list(graph.predecessors(current))` /
+    `while preds and len(list(graph.successors(preds[0]))) == 1`): stops at a segment without predecessor; result =
+    `current` at loop exit -/
+def walkBranch (g : Graph) : Nat → Nat → Option Nat
+  | 0, _ => none
+  | k + 1, cur =>
+    match preds g cur with
+    | [] => some cur                                  -- the morphology root: measured from here
     | par :: _ => if (succs g par).length = 1 then walkBranch g k par else some cur
 
 structure LocInfo where
@@ -305,20 +325,29 @@ structure LocInfo where
   fromBranch : Rat
 deriving Repr
 
-/-- `Cell.get_segment_location_info` for a cell without unbranched ("section") segment groups -/
-def segmentLocationInfoG (m : Morph) (len : Nat → Rat) (g : Graph) (fuel : Nat) (i : Nat) : Option LocInfo :=
+/-- the body of `get_segment_location_info` around a given walk -/
+def locInfoWith (walk : Graph → Nat → Nat → Option Nat) (m : Morph) (len : Nat → Rat) (g : Graph) (fuel : Nat)
+    (i : Nat) : Option LocInfo :=
   match morphologyRootG m g with
   | none => none
   | some root =>
     match distanceG g fuel root i with
     | none => none
     | some dRoot =>
-      match walkBranch g fuel i with
+      match walk g fuel i with
       | none => none
       | some cur =>
         match distanceG g fuel cur i with
         | none => none
         | some dB => some ⟨len i, dRoot, dB⟩
+
+/-- `Cell.get_segment_location_info` for a cell without unbranched ("section") segment groups -/
+def segmentLocationInfoG (m : Morph) (len : Nat → Rat) (g : Graph) (fuel : Nat) (i : Nat) : Option LocInfo :=
+  locInfoWith walkBranch m len g fuel i
+
+/-- … before the repair -/
+def segmentLocationInfoOldG (m : Morph) (len : Nat → Rat) (g : Graph) (fuel : Nat) (i : Nat) : Option LocInfo :=
+  locInfoWith walkBranchOld m len g fuel i
 
 /-! ### the methods on a cell (fresh caches) -/
 
@@ -337,6 +366,8 @@ def segmentLocationInfo (m : Morph) (len : Nat → Rat) (fuel : Nat) (i : Nat) :
   segmentLocationInfoG m len (getGraph m len) fuel i
 
 /-- before the repair -/
+def segmentLocationInfoOld (m : Morph) (len : Nat → Rat) (fuel : Nat) (i : Nat) : Option LocInfo :=
+  segmentLocationInfoOldG m len (getGraph m len) fuel i
 def morphologyRootOld (m : Morph) (len : Nat → Rat) : Option Nat := morphologyRootG m (getGraphOld m len)
 def extremitiesOld (m : Morph) (len : Nat → Rat) (fuel : Nat) : Option (List (Nat × Rat)) :=
   extremitiesOldG (getGraphOld m len) fuel
